@@ -90,6 +90,27 @@ def identityTls (p : Bytes) : Option Ep := analyzerEndpoints .tls p
 def SameConn (e₁ e₂ : Ep) : Prop := e₁ = e₂ ∨ e₁ = e₂.swap
 instance (a b) : Decidable (SameConn a b) := by unfold SameConn; exact inferInstance
 
+theorem Ep.swap_swap (e : Ep) : e.swap.swap = e := by cases e; rfl
+
+theorem SameConn.refl (e : Ep) : SameConn e e := Or.inl rfl
+theorem SameConn.symm {a b : Ep} (h : SameConn a b) : SameConn b a := by
+  rcases h with h | h
+  · exact Or.inl h.symm
+  · right; rw [h, Ep.swap_swap]
+theorem SameConn.trans {a b c : Ep} (h₁ : SameConn a b) (h₂ : SameConn b c) : SameConn a c := by
+  rcases h₁ with rfl | rfl <;> rcases h₂ with rfl | rfl
+  · exact Or.inl rfl
+  · exact Or.inr rfl
+  · exact Or.inr rfl
+  · left; rw [Ep.swap_swap]
+
+/-- A connection irrespective of direction: the endpoint tuple up to swapping the two ends. -/
+instance connSetoid : Setoid Ep := ⟨SameConn, ⟨SameConn.refl, SameConn.symm, SameConn.trans⟩⟩
+def Conn := Quotient connSetoid
+/-- HTTP analyzer: the unordered endpoint pair. -/
+def identityHttp (p : Bytes) : Option Conn :=
+  (analyzerEndpoints .http p).map (fun e => Quotient.mk connSetoid e)
+
 /-! ### endpoints of a well-formed frame of a declared link type (no reference to the code) -/
 
 /-- A TCP segment needs its fixed 20-byte header. IPv4 (RFC 791): version 4, IHL ≥ 5, the header
@@ -151,40 +172,40 @@ end Huginn.KF.C15
 namespace Huginn.KF.C18
 open Huginn.Wire
 
-/-- The analyzer decodes the frame as raw IP or NULL framing, but the hashers' "Ethernet header
-present" test fires (bytes 12–13 are `08 00` / `86 dd`: raw IPv4 from 8.0.x.x / 134.221.x.x, raw
-IPv6 with those bytes in the source address) and they read the IP header at offset 14. -/
-def looksLikeEthernet (a : Analyzer) (p : Bytes) : Prop :=
-  match analyzerView a p with
-  | none => False
-  | some v => v.loc.fr ≠ .eth ∧ looksEth p = true
-instance (a p) : Decidable (looksLikeEthernet a p) := by
-  unfold looksLikeEthernet; split <;> exact inferInstance
+/-- The frame is raw IP or NULL framing (`fr`: as decoded by the analyzer, or as declared by the
+capture), but the hashers' "Ethernet header present" test fires (bytes 12–13 are `08 00` /
+`86 dd`: raw IPv4 from 8.0.x.x / 134.221.x.x, raw IPv6 with those bytes in the source address)
+and they look for the IP header at offset 14. -/
+def looksLikeEthernet (fr : Framing) (p : Bytes) : Prop := fr ≠ .eth ∧ looksEth p = true
+instance (fr p) : Decidable (looksLikeEthernet fr p) := by unfold looksLikeEthernet; exact inferInstance
 
-/-- NULL/loopback framing: the hashers know only Ethernet and raw IP, the frame is hashed as a
+/-- NULL/loopback framing: the hashers know only Ethernet and raw IP; the frame is hashed as a
 whole (TCP, HTTP) or discarded (TLS). -/
-def nullFraming (a : Analyzer) (p : Bytes) : Prop :=
-  match analyzerView a p with
-  | none => False
-  | some v => v.loc.fr = .null
-instance (a p) : Decidable (nullFraming a p) := by unfold nullFraming; split <;> exact inferInstance
+def nullFraming (fr : Framing) : Prop := fr = .null
+instance (fr) : Decidable (nullFraming fr) := by unfold nullFraming; exact inferInstance
 
-/-- Ethernet framing where the ethertype and the IP version nibble disagree: the parser goes by
-the ethertype, the hashers by the nibble. -/
-def versionNibble (a : Analyzer) (p : Bytes) : Prop :=
-  match analyzerView a p with
-  | none => False
-  | some v => v.loc.fr = .eth ∧
-      ¬ (byte v.loc.ip 0 / 16 = (match v.loc.ver with | .v4 => 4 | .v6 => 6))
-instance (a p) : Decidable (versionNibble a p) := by
-  unfold versionNibble; split <;> exact inferInstance
+/-- Ethernet framing where ethertype and IP version nibble disagree: the parser goes by the
+ethertype (and so does the analyzer), the hashers by the nibble. -/
+def versionNibble (l : Located) : Prop :=
+  l.fr = .eth ∧ ¬ (byte l.ip 0 / 16 = (match l.ver with | .v4 => 4 | .v6 => 6))
+instance (l) : Decidable (versionNibble l) := by unfold versionNibble; exact inferInstance
 
 /-- IPv4 header length < 5 words: the analyzer's ports are at offset 20, the hashers' at `ihl*4`
 (HTTP and TLS hash the ports; TCP hashes only the source address and is not affected). -/
-def ihlBelow5 (a : Analyzer) (p : Bytes) : Prop :=
+def ihlBelow5 (l : Located) : Prop := l.ver = .v4 ∧ v4Ihl l.ip < 5
+instance (l) : Decidable (ihlBelow5 l) := by unfold ihlBelow5; exact inferInstance
+
+/-- The frame, as the analyzer decodes it, lies in one of the classes (`ports`: the hasher in
+question also hashes the ports). -/
+def seen (a : Analyzer) (ports : Bool) (p : Bytes) : Prop :=
   match analyzerView a p with
   | none => False
-  | some v => v.loc.ver = .v4 ∧ v4Ihl v.loc.ip < 5
-instance (a p) : Decidable (ihlBelow5 a p) := by unfold ihlBelow5; split <;> exact inferInstance
+  | some v => looksLikeEthernet v.loc.fr p ∨ nullFraming v.loc.fr ∨ versionNibble v.loc ∨
+      (ports = true ∧ ihlBelow5 v.loc)
+instance (a b p) : Decidable (seen a b p) := by unfold seen; split <;> exact inferInstance
+
+/-- The frame of declared link type `fr` lies in one of the classes. -/
+def wire (fr : Framing) (p : Bytes) : Prop := looksLikeEthernet fr p ∨ nullFraming fr
+instance (fr p) : Decidable (wire fr p) := by unfold wire; exact inferInstance
 
 end Huginn.KF.C18
